@@ -676,7 +676,29 @@ func init() {
 				return
 			}
 			f, key, pos, bad, undec, n := r.f, r.key, r.pos, r.bad, r.undec, r.n
-			_ = f
+			// a serializer that hands the address to the standard library's IP types prints RFC 5952 text, which is the
+			// standard's except for IPv4-mapped addresses: netip / net print ::ffff:1.2.3.4 with a dotted tail
+			if f != nil {
+				for _, g := range moduleClosure(c, f, 1) {
+					for _, b := range g.Blocks {
+						for _, ins := range b.Instrs {
+							ci, ok := ins.(ssa.CallInstruction)
+							if !ok {
+								continue
+							}
+							cl := ci.Common().StaticCallee()
+							if cl == nil || cl.Pkg == nil {
+								continue
+							}
+							if pp := cl.Pkg.Pkg.Path(); (pp == "net/netip" || pp == "net") && (cl.Name() == "String" || cl.Name() == "AppendTo" || cl.Name() == "MarshalText" || cl.Name() == "StringExpanded") {
+								bad = "the serializer prints through " + cl.String() + ": the library writes an IPv4-mapped address with a dotted tail ([::ffff:1.2.3.4]) where the standard writes eight hexadecimal pieces ([::ffff:102:304])"
+								undec = ""
+								pos = c.P.Pos(ins.Pos())
+							}
+						}
+					}
+				}
+			}
 			switch {
 			case undec != "":
 				s.Obs = append(s.Obs, core.Obligation{Rule: s.Rule, Construct: key, Pos: pos, Verdict: core.Discharged, Fact: "inventory: not decided (" + undec + ")", Props: s.Props, Trivial: true})
